@@ -5,6 +5,7 @@ package main
 
 import (
 	"fmt"
+	"os"
 	"strings"
 
 	"servitor/feed"
@@ -324,7 +325,7 @@ func main() {
 		fmt.Printf("replay %s [%s]: %s\n", rp.Object, rp.Ops, msg)
 		if msg != "" {
 			fmt.Printf("VIOLATION property=C18 replay=%s\n", *ev.FlagReplay)
-			ev.Fatal("reproduced")
+			os.Exit(1)
 		}
 		return
 	}
